@@ -31,7 +31,9 @@ RULE = (
     "of all three kinds before markup, whitespace-control markers), (b) the shared program generator "
     "of C01 emitted with comments/noisy layouts and partials under 'snippets/', (c) hand-written cases, "
     "(d) programs with a dynamic partial name analysed with include_partials=False; each program is "
-    "analysed (sync, async, 16 helper calls) and rendered sync/async with 6 data sets (all-true/rich, "
+    "analysed (sync, and async under a real event loop, 16 helper calls) through a plain DictLoader (40 %), "
+    "a DictLoader whose get_source_async suspends 1-3 times (42 %) or a FileSystemLoader over a scratch "
+    "directory (18 %), and rendered sync/async with 6 data sets (all-true/rich, "
     "all-false/empty, random, names deleted) under the monitors.  distinct = hash(template set, data, "
     "mode); non-trivial = that render executed >= 1 located variable lookup, >= 1 filter application "
     "and >= 1 tag."
@@ -79,6 +81,10 @@ def floors(tier: str) -> dict[str, int]:
         "runtime_facts_checked": 20_000 * k,
         "spans_relexed": 5_000 * k,
         "analysis_pairs": 500 * k,
+        "analysis_pairs:suspend": 150 * k,  # loaders whose async path really suspends
+        "analysis_pairs:fs": 60 * k,
+        "cases_with:reader-after-binder": 150 * k,
+        "cases_with:scoped-partial": 100 * k,
         "facts:lookups": 8_000 * k,
         "facts:filters": 2_000 * k,
         "facts:tags": 4_000 * k,
@@ -193,6 +199,12 @@ def report(ctx: Ctx, case: dict[str, Any], res: list[tuple[str, str, dict[str, A
 # ------------------------------------------------------------------------ workloads
 
 
+def pick_loader(*parts: Any) -> str:
+    """dict 40 % / suspending dict 42 % / file system 18 %, a pure function of the case id."""
+    x = random.Random(":".join(map(str, parts))).random()
+    return "suspend" if x < 0.42 else ("fs" if x < 0.60 else "dict")
+
+
 def _run(ctx: Ctx, chk: MON.Checker, case: dict[str, Any], origin: Any) -> None:
     res = MON.run_case(chk, case)
     if res is None:
@@ -201,6 +213,8 @@ def _run(ctx: Ctx, chk: MON.Checker, case: dict[str, Any], origin: Any) -> None:
     ctx.count("cases")
     for f in case.get("features") or ():
         ctx.seen("features", f)
+        if f in ("reader-after-binder", "scoped-partial"):
+            ctx.count("cases_with:" + f)
     if res:
         report(ctx, case, res, origin)
 
@@ -214,6 +228,7 @@ def _own(spec: dict[str, Any], ctx: Ctx, dynamic: bool = False) -> None:
         g = G.G(rng, G.Opts(dynamic=dynamic, inherit=0.0 if dynamic else 0.3))
         case = g.program()
         case["datasets"] = g.datasets(DATASETS)
+        case["loader"] = pick_loader(spec["seed"], "loader", spec["kind"], spec["i"], j)
         _run(ctx, chk, case, [spec["kind"], spec["seed"], spec["i"], j])
         last = case
         if j < 2 and spec["i"] == 0:
@@ -292,6 +307,7 @@ def _shared(spec: dict[str, Any], ctx: Ctx) -> None:
         datas = [gen.data() for _ in range(DATASETS - 1)] + [{}]
         case = {"templates": templates, "root": root, "dynamic": False,
                 "binders": sorted(model_binders(prog)), "datasets": datas,
+                "loader": pick_loader(spec["seed"], "loader", "shared", spec["i"], j),
                 "features": ["shared-generator", "shared:comments-layout"]}
         _run(ctx, chk, case, ["shared", spec["seed"], spec["i"], j])
         if j == 0 and spec["i"] == 0:
@@ -356,6 +372,15 @@ HAND: list[tuple[str, dict[str, str], str]] = [
         "{% capture tmp %}{{ s }}{% endcapture %}{{ tmp | size }}"
         "{% for x in items limit: lim offset: h.idx reversed %}{{ x.k }}{% else %}{{ none }}{% endfor %}"
         "{% for x in items offset: continue %}{{ x.t }}{% break %}{% endfor %}")}, "index"),
+    ("sibling-reads-block-bound-name", {"loop.liquid": (
+        "{% for item in items %}{% include 'row.liquid' %}{% endfor %}[{{ item }}]"
+        "{% include 'card.liquid', label: 'x' %}{{ label }}{{ title }}"
+        "{% include 'card.liquid' with s as z %}{{ z }}"
+        "{% with wa: n %}{% render 'row.liquid', item: wa %}{% endwith %}{{ wa }}"
+        "{% macro mm pa %}{% render 'sub/deep.liquid' %}{{ pa }}{% endmacro %}{{ pa }}{% call mm m %}"
+        "{% for row in rows %}{% render 'sub/deep.liquid' %}{% endfor %}{{ row.k }}{{ forloop.index }}"),
+        "row.liquid": "<{{ item }}>", "card.liquid": "({{ label }}/{{ title }}/{{ z }})",
+        "sub/deep.liquid": "{{ who }}{% render 'row.liquid', item: lim %}"}, "loop.liquid"),
     ("implicit-lookups", {"index": (
         "{{ 'Hello %(who)s' | t }}{{ 'Bye %(you)s' | t: you: s }}{{ 'x' | gettext }}")}, "index"),
 ]
@@ -368,10 +393,11 @@ def _hand(spec: dict[str, Any], ctx: Ctx) -> None:
         datas = [G.make_data(rng, v) for v in range(DATASETS)]
         binders = {"forloop", "tablerowloop", "block", "args", "kwargs", "v1", "v2", "tmp", "i", "x", "row",
                    "el", "it", "idx", "e", "pa", "pb", "wa", "wb", "you", "count", "c1", "ka", "kb", "al",
-                   "card", "plain", "snippets/card", "snippets/sub/row"}
-        case = {"templates": templates, "root": root, "dynamic": False, "binders": sorted(binders),
-                "datasets": datas, "features": ["hand:" + label]}
-        _run(ctx, chk, case, ["hand", label])
+                   "card", "plain", "snippets/card", "snippets/sub/row", "item", "label", "z"}
+        for lk in MON.LOADER_KINDS:
+            case = {"templates": templates, "root": root, "dynamic": False, "binders": sorted(binders),
+                    "datasets": datas, "loader": lk, "features": ["hand:" + label, "loader:" + lk]}
+            _run(ctx, chk, case, ["hand", label, lk])
     ctx.sample({"kind": "hand", "templates": HAND[0][1]})
 
 
@@ -397,8 +423,10 @@ def replay(wit: dict[str, Any], ctx: Ctx) -> None:
     if res is None:
         print("replay C11: the witness is not a valid case (does not parse)")
         return
+    cs = None
     try:
         cs = MON.Case(case)
+        print(f"  loader: {cs.loader_kind}")
         a = cs.t.analyze(include_partials=not cs.dynamic)
         c = MON.canon(a)
         for field, rows in c.items():
@@ -414,6 +442,9 @@ def replay(wit: dict[str, Any], ctx: Ctx) -> None:
             print(f"    tag {name!r} at {cs.names_of.get(src)}[{a0}:{b0}]")
     except Exception as e:  # noqa: BLE001
         print(f"  (view unavailable: {type(e).__name__}: {e})")
+    finally:
+        if cs is not None:
+            cs.close()
     for key, what, det in res:
         print(f"replay C11: key={key}: {what}")
         w = dict(wit)
